@@ -275,7 +275,14 @@ func (l *List) Size(st funcGen.Stack[Value]) (int, error) {
 func ToFunc(name string, st funcGen.Stack[Value], n int, args int) (funcGen.Function[Value], error) {
 	if c, ok := st.Get(n).(Closure); ok {
 		if c.Args == args {
-			return funcGen.Function[Value](c), nil
+			// The function may be called on a worker goroutine of the list
+			// operation, where a panic would terminate the process.
+			f := funcGen.Function[Value](c)
+			inner := f.Func
+			f.Func = func(st funcGen.Stack[Value], cs []Value) (Value, error) {
+				return callRecover(inner, st, cs)
+			}
+			return f, nil
 		} else {
 			return funcGen.Function[Value]{}, fmt.Errorf("%d. argument of %s needs to be a function with %d arguments", n, name, args)
 		}
